@@ -129,7 +129,7 @@ def main(tier):
     ck.built = built
     rnd = core.rng_for("c06main", ck.seed, tier)
     quick = tier == "quick"
-    jobs = [(built, "gen", ck.seed, i, None) for i in range(500 if quick else 8000)]
+    jobs = [(built, "gen", ck.seed, i, None) for i in range(3000 if quick else 25000)]
     shards, reg = trees.corpus_shards(rnd, 16, registry_n=0 if quick else 1500)
     for i, sh in enumerate(shards):
         jobs.append((built, "corpus", ck.seed, i, sh))
